@@ -110,9 +110,13 @@ Lemma rd_em_nc : forall rd o pos t em t',
 Proof.
   induction rd as [|p r IH]; intros o pos t em t' H.
   - injection H as <- <-. split; [reflexivity|]. intros. reflexivity.
-  - destruct p as [b|n|n]; cbn [rd_em] in *.
+  - destruct p as [b|n|n|n]; cbn [rd_em] in *.
     + apply bind_ok in H. destruct H as ([e2 t2] & H2 & H). injection H as <- <-. cbn [fst snd].
       destruct (IH _ _ _ _ _ H2) as (-> & I2). split; [reflexivity|]. intros pos' t3. rewrite I2. reflexivity.
+    + apply bind_ok in H. destruct H as ([e1 t1] & H1 & H). apply bind_ok in H. destruct H as ([e2 t2] & H2 & H).
+      injection H as <- <-. cbn [fst snd] in *. destruct (nm_em_nc _ _ _ _ _ _ H1) as (-> & I1).
+      destruct (IH _ _ _ _ _ H2) as (-> & I2). split; [reflexivity|]. intros pos' t3.
+      rewrite I1. cbn [bind fst snd]. rewrite I2. reflexivity.
     + apply bind_ok in H. destruct H as ([e1 t1] & H1 & H). apply bind_ok in H. destruct H as ([e2 t2] & H2 & H).
       injection H as <- <-. cbn [fst snd] in *. destruct (nm_em_nc _ _ _ _ _ _ H1) as (-> & I1).
       destruct (IH _ _ _ _ _ H2) as (-> & I2). split; [reflexivity|]. intros pos' t3.
